@@ -1,4 +1,260 @@
+//! C19 — random colour sampling respects the requested range and volume.
+//!
+//! A sampler is a deterministic function of the words it draws from its RNG, and the RNG is the
+//! harness's own (`rng::ScriptRng`): "all RNG streams" becomes "all scripts over a word lattice"
+//! W^d (d = measured number of draws of the type), and for the volume claim a *complete regular
+//! grid* of the words that feed the radial and height draws, whose exact push-forward is counted
+//! in equal-volume cells and compared with the closed-form inverse CDF derived in `geom.rs`.
+//! Nothing is sampled at random; nothing is decided by statistics.
+mod geom;
+mod range;
+mod rng;
+mod spec;
+mod volume;
+
+use pv::fl::Fl;
+use pv::{json, Collector, Ctx, Mode, Tier, Value};
+use rand::distributions::uniform::SampleUniform;
+use range::*;
+use spec::{Shape, Spec, A4};
+
+struct Lat {
+    std3: Vec<u64>,
+    std4: Vec<u64>,
+    uni3: Vec<u64>,
+    uni4: Vec<u64>,
+}
+
+fn lattices<T: Fl>(tier: Tier) -> Lat {
+    let bits = word_bits::<T>();
+    let (ks, ku) = if bits == 32 { (24, 23) } else { (53, 52) };
+    let quick = rng::word_lattice(bits, &[1, 2, 9, ks, ku, bits - 1], 9); // 24 words
+    let small = rng::word_lattice(bits, &[1, ku], 4); // 11 words
+    match tier {
+        Tier::Quick => Lat { std3: quick.clone(), std4: small.clone(), uni3: quick, uni4: small },
+        Tier::Thorough => Lat {
+            std3: rng::word_lattice(bits, &[1, 2, 3, 4, 8, 9, 12, 16, 20, 22, ks, ku, ks + 1, ku - 1, bits - 1, bits - 2, bits - 4], 33), // 70 words
+            std4: quick.clone(),
+            uni3: rng::word_lattice(bits, &[1, 2, 3, 9, 16, ks, ku, bits - 1], 21), // 40 words
+            uni4: rng::word_lattice(bits, &[1, 2, 9, ku], 5),                       // 16 words
+        },
+    }
+}
+
+fn run_standard<T: Fl>(ctx: &Ctx, specs: &[Spec<T>], total: &mut Collector) {
+    let sub = format!("standard/{}", T::NAME);
+    if !ctx.wants(&sub) {
+        return;
+    }
+    let lat = lattices::<T>(ctx.tier);
+    // work items: (spec, index of the first script word)
+    let draws: Vec<Draws> = specs.iter().map(|sp| probe_draws::<T>(&*sp.std, &format!("Standard/{}<{}>", sp.name, T::NAME))).collect();
+    let mut items = vec![];
+    for (si, sp) in specs.iter().enumerate() {
+        let w = if draws[si].n >= 4 { &lat.std4 } else { &lat.std3 };
+        for fi in 0..w.len() {
+            items.push((si, fi));
+        }
+        let _ = sp;
+    }
+    let (items_ref, draws_ref, lat_ref) = (&items, &draws, &lat);
+    let cc = pv::par::run_chunks(items.len(), |ci, c| {
+        let (si, fi) = items_ref[ci];
+        let sp = &specs[si];
+        let d = draws_ref[si];
+        let w = if d.n >= 4 { &lat_ref.std4 } else { &lat_ref.std3 };
+        let who = format!("Standard/{}<{}>", sp.name, T::NAME);
+        let (mut states, mut traces, mut nontrivial) = (0u64, 0u64, 0u64);
+        for_scripts(w, d.n, Some(fi), |script| {
+            let x = run_sample::<T>(&*sp.std, script, d, &who);
+            states += 1;
+            // non-trivial: some word of the script is an extreme (all-zero / all-ones) word, i.e. the
+            // sample sits on an end of at least one component's range
+            if script.iter().any(|&s| s == 0 || s == w[1]) {
+                nontrivial += 1;
+            }
+            check_standard(sp, script, &x, c, &mut traces);
+            let mut h = pv::fnv(sp.name.as_bytes());
+            for v in &x[..sp.n] {
+                h = pv::splitmix(h ^ v.bits64());
+            }
+            c.outcome(h);
+            if states == 1 {
+                c.sample(pv::splitmix(ci as u64 ^ ctx.seed ^ 0x51), || json!({"sub": "standard", "type": sp.name, "float": T::NAME, "script": words_hex(script), "sample": f64s(&x, sp.n)}));
+            }
+        });
+        c.add(&sub, states, states, traces, nontrivial);
+    });
+    total.merge(cc);
+    let dn: Vec<String> = specs.iter().zip(&draws).map(|(s, d)| format!("{}:{}", s.name, d.n)).collect();
+    total.note(&format!("draws_per_sample/standard/{}", T::NAME), json!(dn));
+    total.exhaustive(&sub, true, &format!("{} types x all scripts W^d, d = measured draws per sample (1..4), |W| = {} (d <= 3) / {} (d = 4, Alpha forms) words of the lattice {{0, MAX, 1, MAX-1, 2^k, 2^k-1, equally spaced}}", specs.len(), lat.std3.len(), lat.std4.len()));
+}
+
+fn run_uniform<T: Fl + SampleUniform>(ctx: &Ctx, specs: &[Spec<T>], total: &mut Collector) {
+    let sub = format!("uniform/{}", T::NAME);
+    if !ctx.wants(&sub) {
+        return;
+    }
+    let lat = lattices::<T>(ctx.tier);
+    let thorough = ctx.tier == Tier::Thorough;
+    let pairs: Vec<Vec<Ends<T>>> = specs.iter().map(|sp| end_pairs(sp, thorough)).collect();
+    // work items: (spec, block of end-point pairs)
+    let mut items = vec![];
+    for si in 0..specs.len() {
+        let per = 4usize;
+        let mut i = 0;
+        while i < pairs[si].len() {
+            items.push((si, i, (i + per).min(pairs[si].len())));
+            i += per;
+        }
+    }
+    let (items_ref, pairs_ref, lat_ref) = (&items, &pairs, &lat);
+    let out = pv::par::map_chunks(items.len(), |ci| {
+        let mut col = Collector::new();
+        let c = &mut col;
+        let (si, p0, p1) = items_ref[ci];
+        let sp = &specs[si];
+        let (mut states, mut trans, mut traces, mut nontrivial) = (0u64, 0u64, 0u64, 0u64);
+        let mut panics: std::collections::BTreeMap<String, u64> = Default::default();
+        for pi in p0..p1 {
+            let (lo, hi) = (pairs_ref[si][pi].lo, pairs_ref[si][pi].hi);
+            for inclusive in [false, true] {
+                if !inclusive && pairs_ref[si][pi].inclusive_only {
+                    continue;
+                }
+                trans += 1;
+                let sampler = match build(sp, &lo, &hi, inclusive) {
+                    Ok(s) => s,
+                    Err(msg) => {
+                        // rand's constructors panic on an empty range (`new` with low >= high, …); the
+                        // property speaks about drawn colours only — recorded, not judged
+                        *panics.entry(format!("{}: {}", if inclusive { "new_inclusive" } else { "new" }, msg)).or_default() += 1;
+                        continue;
+                    }
+                };
+                let who = format!("Uniform::{}/{}<{}>", if inclusive { "new_inclusive" } else { "new" }, sp.name, T::NAME);
+                let d = probe_draws::<T>(&*sampler, &who);
+                let w = if d.n >= 4 { &lat_ref.uni4 } else { &lat_ref.uni3 };
+                let ends_hsv = sp.to_hsv.map(|f| (f(&lo), f(&hi)));
+                let uc = UniCase { sp, lo, hi, inclusive, ends_hsv };
+                let degenerate = (0..sp.n).any(|i| lo[i].bits64() == hi[i].bits64());
+                let mut first = true;
+                for_scripts(w, d.n, None, |script| {
+                    let x = run_sample::<T>(&*sampler, script, d, &who);
+                    states += 1;
+                    trans += 1;
+                    if degenerate || script.iter().any(|&s| s == 0 || s == w[1]) {
+                        nontrivial += 1;
+                    }
+                    check_uniform(&uc, script, &x, c, &mut traces);
+                    let mut h = pv::fnv(sp.name.as_bytes()) ^ inclusive as u64;
+                    for v in &x[..sp.n] {
+                        h = pv::splitmix(h ^ v.bits64());
+                    }
+                    c.outcome(h);
+                    if first && pi == p0 {
+                        first = false;
+                        c.sample(pv::splitmix(ci as u64 ^ ctx.seed ^ 0x77), || json!({"sub": "uniform", "type": sp.name, "float": T::NAME, "dist": if inclusive { "new_inclusive" } else { "new" }, "low": f64s(&lo, sp.n), "high": f64s(&hi, sp.n), "script": words_hex(script), "sample": f64s(&x, sp.n)}));
+                    }
+                });
+            }
+        }
+        c.add(&sub, states, trans, traces, nontrivial);
+        let panics: Vec<(String, u64)> = panics.into_iter().map(|(k, v)| (format!("{}: {}", sp.name, k), v)).collect();
+        (col, panics)
+    });
+    // constructor panics: summed per (type, constructor, message)
+    let mut sums: std::collections::BTreeMap<String, u64> = Default::default();
+    for (col, panics) in out {
+        total.merge(col);
+        for (k, v) in panics {
+            *sums.entry(k).or_default() += v;
+        }
+    }
+    total.note(&format!("constructor_panics/{}", T::NAME), json!(sums));
+    let np: usize = pairs.iter().map(|p| p.len()).sum();
+    total.exhaustive(&sub, true, &format!("{} types x {} end-point pairs (product over components of {{full range, sub-range, equal ends (inclusive), adjacent floats (inclusive), 2^-20 of the range{}}}; hue arcs (10,20) (350,370) (-10,10) (0,360) (720,730) equal adjacent{}; Alpha forms: diagonal x alpha pairs; HWB forms also reversed ends) x {{new, new_inclusive}} x all scripts W^d, |W| = {} (d <= 3) / {} (d = 4)", specs.len(), np, if thorough { ", low tenth, high tenth, both at min, both at max, max-ulp..max" } else { "" }, if thorough { " (359,361) (-370,-350) (180,540) (5,365) (350,360) (-720,-710) (0,0) (90,270) (270,450)" } else { "" }, lat.uni3.len(), lat.uni4.len()));
+}
+
+fn replay(c: &mut Collector, rep: &Value) {
+    let case = &rep["case"];
+    let float = case["float"].as_str().unwrap_or("f32").to_string();
+    fn go<T: Fl + SampleUniform>(specs: Vec<Spec<T>>, case: &Value, c: &mut Collector) {
+        let ty = case["type"].as_str().unwrap_or("");
+        let sp = specs.iter().find(|s| s.name == ty).unwrap_or_else(|| machinery(format!("replay: unknown type {ty}")));
+        let script = parse_hex(&case["script"]);
+        let arr = |v: &Value| -> A4<T> {
+            let b = parse_hex(v);
+            let mut a = [T::from64(0.0); 4];
+            for (i, x) in b.iter().enumerate().take(4) {
+                a[i] = T::from_bits64(*x);
+            }
+            a
+        };
+        let mut traces = 0u64;
+        match case["sub"].as_str().unwrap_or("") {
+            "standard" => {
+                let d = probe_draws::<T>(&*sp.std, "replay");
+                let x = run_sample::<T>(&*sp.std, &script, d, "replay");
+                println!("Standard -> {}<{}> with script {:?} = {:?}", sp.name, T::NAME, words_hex(&script), f64s(&x, sp.n));
+                check_standard(sp, &script, &x, c, &mut traces);
+            }
+            "uniform" => {
+                let (lo, hi) = (arr(&case["low_bits"]), arr(&case["high_bits"]));
+                let inclusive = case["dist"].as_str() == Some("new_inclusive");
+                match build(sp, &lo, &hi, inclusive) {
+                    Err(msg) => println!("constructor panicked: {msg}"),
+                    Ok(s) => {
+                        let d = probe_draws::<T>(&*s, "replay");
+                        let x = run_sample::<T>(&*s, &script, d, "replay");
+                        println!("Uniform::{}({:?}, {:?}) -> {}<{}> with script {:?} = {:?}", if inclusive { "new_inclusive" } else { "new" }, f64s(&lo, sp.n), f64s(&hi, sp.n), sp.name, T::NAME, words_hex(&script), f64s(&x, sp.n));
+                        let ends_hsv = sp.to_hsv.map(|f| (f(&lo), f(&hi)));
+                        check_uniform(&UniCase { sp, lo, hi, inclusive, ends_hsv }, &script, &x, c, &mut traces);
+                    }
+                }
+            }
+            "volume" => volume::replay(sp, case, c),
+            other => machinery(format!("replay: unknown sub {other}")),
+        }
+    }
+    if float == "f32" {
+        go::<f32>(specs_for!(f32), case, c)
+    } else {
+        go::<f64>(specs_for!(f64), case, c)
+    }
+}
+
 fn main() {
-    eprintln!("C19: check not built yet");
-    std::process::exit(3);
+    pv::main_guard(real_main)
+}
+
+fn real_main() -> i32 {
+    let (ctx, mode) = Ctx::from_args("C19");
+    if let Mode::Replay(rep) = mode {
+        let mut c = Collector::new();
+        replay(&mut c, &rep);
+        return ctx.finish_replay(c);
+    }
+    let mut total = Collector::new();
+    let (s32, s64) = (specs_for!(f32), specs_for!(f64));
+    run_standard::<f32>(&ctx, &s32, &mut total);
+    run_standard::<f64>(&ctx, &s64, &mut total);
+    run_uniform::<f32>(&ctx, &s32, &mut total);
+    run_uniform::<f64>(&ctx, &s64, &mut total);
+    volume::run::<f32>(&ctx, &s32, &mut total);
+    volume::run::<f64>(&ctx, &s64, &mut total);
+    let _ = Shape::Hue;
+    ctx.finish(
+        total,
+        "model_checking",
+        "states = (distribution, end-point pair, RNG script) triples: every script of the word lattice W^d resp. every word pair of the complete regular grid; transitions = sampler constructions + sample calls on the harness's scripted RNG; traces = range predicates and closed-form inverse-CDF predictions compared with the sample, plus one per equal-volume cell count; non-trivial = scripts containing an extreme (all-zero / all-ones) word or end-point pairs with an equal component (range oracle), grid points that are not on a cell boundary (volume oracle)",
+        &[
+            "a sampler is a deterministic function of the words it requests from RngCore (checked: the number and kind of requests per sample is measured per type and asserted constant; f32 samplers use next_u32, f64 samplers next_u64)",
+            "range: components drawn directly from a component sampler are compared exactly; components obtained through sqrt/cbrt of a draw between F(low) and F(high) get the rounding allowance derived in geom::end_bounds (16 eps pushed through the exact inverse CDF), HWB forms additionally the HSV->HWB->HSV round-trip allowance eps*(16+2/v); hue arcs 8 eps (360+|low|+|high|) degrees",
+            "a panic of Uniform::new / new_inclusive (rand's documented behaviour for empty ranges) produces no colour and is recorded in the notes, not judged",
+            "Uniform::new: reaching the excluded upper end is reported only for directly drawn components and only if rand's own Uniform::new(low, high) for that component does not reach it with the all-ones word",
+            "volume: cone = HSV geometry (radius s*v, height v), bicone = HSL geometry (radius s*(1-|2l-1|), height l), HWB judged through palette's own conversion to its equivalent HSV; Hsluv is not named by the property's volume claim and only range-checked",
+        ],
+    )
 }
